@@ -59,6 +59,18 @@ def small_int_programs():
     for op in ("+", "-", "*", "&", "|", "^"):
         out.append(f"def f(a: Qint[2], b: Qint[2]) -> Qint[2]:\n    return a {op} b")
         out.append(f"def f(a: Qint[2], b: Qint[2]) -> bool:\n    return (a {op} b) != 1")
+    # n-ary operators as the front end hands them over (parities, conjunctions, disjunctions of 3..6 bits, mixed signs)
+    names = ["a", "b", "c", "d", "e", "g"]
+    for n in range(3, 7):
+        sig = ", ".join(f"{v}: bool" for v in names[:n])
+        for op, j in (("^", " ^ "), ("and", " and "), ("or", " or ")):
+            out.append(f"def f({sig}) -> bool:\n    return " + j.join(names[:n]))
+            out.append(f"def f({sig}) -> bool:\n    return " + j.join((f"(not {v})" if k % 2 else v) for k, v in enumerate(names[:n])))
+        out.append(f"def f(l: Qlist[bool, {n}]) -> bool:\n    return " + " ^ ".join(f"l[{k}]" for k in range(n)))
+        out.append(f"def f(l: Qlist[bool, {n}]) -> Tuple[bool, bool]:\n    return (" + " ^ ".join(f"l[{k}]" for k in range(n)) + ", l[0] or l[1])")
+    for src in ("def f(a: Qint[3], b: Qint[3]) -> Qint[3]:\n    return a * b + a", "def f(a: Qint[3], b: Qint[3]) -> bool:\n    return a + b == 5",
+                "def f(a: Qint[2], b: Qint[2], c: Qint[2]) -> Qint[2]:\n    return a + b + c", "def f(a: Qint[3]) -> Qint[3]:\n    return a * 3 + 1"):
+        out.append(src)
     return [{"src": s, "origin": "small-int"} for s in out]
 
 
